@@ -50,15 +50,18 @@ let do_multi_run l =
        | _ -> "BAD")
   | _ -> "BAD"
 
-(* ---- Context race LTS --------------------------------------------------------------------------
+(* ---- Context model (repaired code): sections are atomic ------------------------------------------
    config :=  ndeps {name k dep^k}  nso {k in^k m out^m}  fuel
-              nreg {name cls}  cache: -1 or n {name cls}
+              nreg {name cls}  cache: -1 or n {name}
               nthreads {nitems item..}
-     item := 1 k t^k | 2 t | 3 t c | 4 | 5 l t | 6 k t^k nsf
-   ctx <config> nseg {tid count}     run the schedule, then every thread to completion in tid order
-        out: per thread  T status(D | R | C kind lbl) ntrace lbl..   then G and the _get_plugins results
-   ctxsearch <config> astride bstride cmax   2 threads: T0 a, T1 b, [T0 c], then drain; all crash classes
-        out: N nclasses {tid kind lbl a b c}                                                          *)
+     item := 1 k t^k (IGetPlugins) | 2 t (IKeyFor) | 3 t c (IRegister) | 4 (ICleanup) | 5 l t (IRegRead)
+           | 6 k t^k nsf (IEstimate) | 7 (ICopyReg) | 8 (IEndCall)
+   fctx <config> mode nseg ...
+     mode 0: nseg {tid count}   thread tid makes count transitions
+     mode 1: nseg {tid}         thread tid runs up to and including its next atomic section
+     afterwards every thread runs to completion in tid order
+   out: per thread  T status(D | R | C kind lbl) ntrace lbl.. S nsteps len.. G k {m name^m}
+        then  C (-1 | n name..)  W wf-per-thread..  X expgot-equal-per-thread..  B weight-per-thread.. *)
 let cur = ref [||] and pos = ref 0
 let next () = let v = !cur.(!pos) in incr pos; v
 let nexts k = List.init k (fun _ -> next ())
@@ -72,96 +75,68 @@ let parse_config () =
   let nreg = next () in
   let reg = List.init nreg (fun _ -> let n = next () in let c = next () in (z_of_int n, z_of_int c)) in
   let nc = next () in
-  let (curc, heap) =
-    if nc < 0 then (None, [])
-    else (Some O, [ { d_items = List.init nc (fun _ -> let n = next () in let c = next () in (z_of_int n, z_of_int c)); d_ver = O } ]) in
+  let cache = if nc < 0 then None else Some (zs (nexts nc)) in
   let nth = next () in
   let progs = List.init nth (fun _ ->
     let ni = next () in
     List.init ni (fun _ ->
       match next () with
-      | 1 -> let k = next () in MGetPlugins (zs (nexts k))
-      | 2 -> MKeyFor (z_of_int (next ()))
-      | 3 -> let t = next () in let c = next () in HRegGet (z_of_int t, z_of_int c)
-      | 4 -> HSnap
-      | 5 -> let l = next () in let t = next () in HRead (z_of_int l, z_of_int t)
-      | 6 -> let k = next () in let ts = zs (nexts k) in let nsf = next () in MEstimate (ts, nat_of_int nsf)
+      | 1 -> let k = next () in IGetPlugins (zs (nexts k))
+      | 2 -> IKeyFor (z_of_int (next ()))
+      | 3 -> let t = next () in let c = next () in IRegister (z_of_int t, z_of_int c)
+      | 4 -> ICleanup
+      | 5 -> let l = next () in let t = next () in IRegRead (z_of_int l, z_of_int t)
+      | 6 -> let k = next () in let ts = zs (nexts k) in let nsf = next () in IEstimate (ts, nat_of_int nsf)
+      | 7 -> ICopyReg
+      | 8 -> IEndCall
       | _ -> failwith "item")) in
   let c = { c_deps = deps; c_setorder = so; c_fuel = nat_of_int fuel } in
-  let sh = { sh_reg = { d_items = reg; d_ver = O }; sh_cur = curc; sh_heap = heap } in
+  let sh = { sh_reg = reg; sh_cache = cache } in
   (c, sh, progs)
+let zl l = String.concat " " (List.map (fun z -> string_of_int (int_of_z z)) l)
 let show_status th =
   match th.th_status with
   | Running -> "R" | Done -> "D"
   | Crashed (k, l) -> Printf.sprintf "C %d %d" (int_of_z k) (int_of_z l)
-let show_sys s =
-  String.concat " " (List.map (fun th ->
-    let tr = List.rev_map int_of_z th.th_trace in
-    Printf.sprintf "T %s %d %s" (show_status th) (List.length tr) (join tr)) s.s_ths)
-let rec run_n c s tid n = if n <= 0 then s else
-  (match List.nth_opt s.s_ths tid with
-   | Some th when th.th_status = Running -> run_n c (sys_step c s (nat_of_int tid)) tid (n - 1)
-   | _ -> s)
+let show_got g = Printf.sprintf "%d %s" (List.length g)
+    (String.concat " " (List.map (fun x -> Printf.sprintf "%d %s" (List.length x) (zl x)) g))
+let show_thread th =
+  Printf.sprintf "T %s %d %s S %d %s G %s" (show_status th) (List.length th.th_trace) (zl th.th_trace)
+    (List.length th.th_steps) (join (List.map int_of_nat th.th_steps)) (show_got th.th_got)
+let running s tid = match List.nth_opt s.s_ths tid with Some th -> th.th_status = Running | None -> false
+let rec run_n c s tid n = if n <= 0 || not (running s tid) then s else run_n c (sys_step c s (nat_of_int tid)) tid (n - 1)
+let is_section = function IGetPlugins _ | IKeyFor _ | IEstimate _ -> true | _ -> false
+let rec run_to_section c s tid =
+  if not (running s tid) then s else
+  match List.nth_opt s.s_ths tid with
+  | Some th ->
+      (match th.th_items with
+       | it :: _ -> let s' = sys_step c s (nat_of_int tid) in if is_section it then s' else run_to_section c s' tid
+       | [] -> sys_step c s (nat_of_int tid))
+  | None -> s
 let drain_all c s nth = let s = ref s in
   for t = 0 to nth - 1 do s := run_n c !s t 1000000 done; !s
-let do_ctx l =
+let do_fctx l =
   cur := Array.of_list l; pos := 0;
   let (c, sh, progs) = parse_config () in
+  let mode = next () in
   let nseg = next () in
-  let s = ref (init_sys c sh progs) in
-  for _ = 1 to nseg do let tid = next () in let n = next () in s := run_n c !s tid n done;
-  let s = drain_all c !s (List.length progs) in
-  show_sys s ^ " G " ^ String.concat " " (List.map (fun th ->
-      String.concat "," (List.map (fun g -> String.concat "." (List.map (fun z -> string_of_int (int_of_z z)) g)) (List.rev th.th_got))) s.s_ths)
-let steps_left c s tid = (* number of steps thread tid makes when run alone *)
-  let rec go s n = match List.nth_opt s.s_ths tid with
-    | Some th when th.th_status = Running -> go (sys_step c s (nat_of_int tid)) (n + 1)
-    | _ -> n in go s 0
-let drain_order c s order = List.fold_left (fun s t -> run_n c s t 1000000) s order
-let do_ctxsearch l =
-  cur := Array.of_list l; pos := 0;
-  let (c, sh, progs) = parse_config () in
-  let astride = next () in let bstride = next () in let cmax = next () in
-  let s0 = init_sys c sh progs in
-  let classes = Hashtbl.create 16 in
-  let order = ref [] in
-  let record s a b cc =
-    List.iteri (fun tid th -> match th.th_status with
-      | Crashed (k, lb) ->
-          let key = (tid, int_of_z k, int_of_z lb) in
-          if not (Hashtbl.mem classes key) then begin Hashtbl.add classes key (a, b, cc); order := key :: !order end
-      | _ -> ()) s.s_ths in
-  let n0 = steps_left c s0 0 in
-  let a = ref 0 in
-  let sa = ref s0 in
-  while !a <= n0 do
-    let sb = ref !sa in
-    let b = ref 0 in
-    let continue = ref true in
-    while !continue do
-      (* cc = -1: T0 to completion, then T1.   cc >= 0: T0 cc steps, then T1 to completion, then T0 *)
-      record (drain_order c !sb [0; 1]) !a !b (-1);
-      let sc = ref !sb in
-      for cc = 0 to cmax do
-        record (drain_order c !sc [1; 0]) !a !b cc;
-        sc := run_n c !sc 0 1
-      done;
-      (match List.nth_opt !sb.s_ths 1 with
-       | Some th when th.th_status = Running ->
-           sb := run_n c !sb 1 bstride; b := !b + bstride
-       | _ -> continue := false)
-    done;
-    sa := run_n c !sa 0 astride; a := !a + astride
+  let s = ref (init_sys sh progs) in
+  for _ = 1 to nseg do
+    if mode = 0 then (let tid = next () in let n = next () in s := run_n c !s tid n)
+    else (let tid = next () in s := run_to_section c !s tid)
   done;
-  let ks = List.rev !order in
-  Printf.sprintf "N %d %s" (List.length ks)
-    (String.concat " " (List.map (fun ((tid, k, lb) as key) ->
-       let (a, b, cc) = Hashtbl.find classes key in Printf.sprintf "%d %d %d %d %d %d" tid k lb a b cc) ks))
+  let s = drain_all c !s (List.length progs) in
+  let b2s b = if b then "1" else "0" in
+  String.concat " " (List.map show_thread s.s_ths)
+  ^ " C " ^ (match s.s_sh.sh_cache with None -> "-1" | Some ks -> Printf.sprintf "%d %s" (List.length ks) (zl ks))
+  ^ " W " ^ String.concat " " (List.map (fun p -> b2s (wf_items c sh.sh_reg None p)) progs)
+  ^ " X " ^ String.concat " " (List.map2 (fun p th -> b2s (exp_got c p = th.th_got)) progs s.s_ths)
+  ^ " B " ^ String.concat " " (List.map (fun p -> string_of_int (int_of_nat (prog_weight c p))) progs)
 
 let handle toks =
   match toks with
   | "multi_run" :: rest -> do_multi_run (ints rest)
-  | "ctx" :: rest -> do_ctx (ints rest)
-  | "ctxsearch" :: rest -> do_ctxsearch (ints rest)
+  | "fctx" :: rest -> do_fctx (ints rest)
   | _ -> "UNKNOWN"
 let () = main_loop handle
